@@ -155,6 +155,14 @@ Theorem c07_cut_is_prefix : forall (n : N) (l : list N), exists rest, l = cut_fl
 Proof. exact cut_floor_prefix. Qed.
 Print Assumptions c07_cut_is_prefix.
 
+(* … and for every text (any code points, any repetition) and every n the cut is a well-formed UTF-8 text of at
+   most n bytes: the offset is never inside a character.  (`&body[..n]`, a byte slice, is partial: it panics there,
+   and a panicking run task never reaches the single exit — no end frame, no snapshot, no run_ended.) *)
+Theorem c07_cut_whole_characters : forall (text : list (N * N)) (n : N),
+  WfU8 (cut_floor n (seg_bytes text)) /\ nlen (cut_floor n (seg_bytes text)) <= n.
+Proof. exact cut_of_text_wf. Qed.
+Print Assumptions c07_cut_whole_characters.
+
 (* non-vacuity: four activities (a provider run with a tool round, a tool-envelope run that times out, an
    unlinked run whose provider stream breaks, a job), really interleaved; the hypotheses hold and the run's
    thread frames are the full sequence *)
